@@ -71,6 +71,66 @@ def dispatch_always_decodes(ctx, rule, exempt=()):
     ctx.floor('dispatch arms examined for unconditional decoding', n, 9 - len(exempt))
 
 
+def no_reordering(ctx, rule, elem_types=('layer::LayerData', 'tags::Tag', 'slice::Slice', 'slice::SliceKey')):
+    """no sort / reverse / insert / remove / rev .. anywhere in the crate on the collections whose order is the file's order"""
+    fx = ctx.fx
+    nre = 0
+    scanned = 0
+    for b in fx.bodies:
+        if b.kind == 'promoted':
+            continue
+        for c in q.calls(b):
+            scanned += 1
+            nm = c.callee.split('::')[-1]
+            if nm in REORDER and (c.callee.startswith('std::vec::Vec::') or c.callee.startswith('core::slice::')
+                                  or c.callee.startswith('std::iter::Iterator::') or c.callee.startswith('std::slice::')):
+                at = q.arg_terms(c)
+                names = set()
+                for x in walk(at[0]):
+                    if isinstance(x, tuple) and x[0] == 'field':
+                        names.add(x[2])
+                hit = (names & set(ORDERED_FIELDS)) if len(elem_types) == 4 else set()
+                aty = c.args[0]['p']['ty'] if c.args and c.args[0]['k'] in ('copy', 'move') else ''
+                for et in elem_types:
+                    if ('<%s>' % et) in aty or ('[%s]' % et) in aty or ('<%s,' % et) in aty:
+                        hit = hit | {et}
+                if hit:
+                    nre += 1
+                    ctx.inst(rule, b.name, False, '%s is applied to %s: file order of %s is no longer preserved'
+                             % (c.callee, show(at[0])[:100], sorted(hit)), c.span, key=ctx.key(b.name, rule, c.callee, ''))
+    ctx.inst(rule, 'crate', nre == 0, 'no sort/reverse/insert/remove/rev/... on layers, tags, slices or slice keys in %d call sites '
+             'scanned' % scanned, None, key='crate|%s|none' % rule)
+
+
+def frame_duration_store(ctx, rule, bindings=None):
+    """every successfully parsed frame stores its own header duration at its own index - unconditionally: whatever the file header's
+    deprecated `speed` field holds can then never show (seed C07-i kept the default for frames whose duration field is 0)"""
+    fx = ctx.fx
+    if bindings is None:
+        import rule as R
+        import spec as _SP
+        spec = _SP.load_spec()
+        tmp = R.Ctx('tmp', fx, 'quick')
+        tmp.root = getattr(ctx, 'root', None)
+        bindings, _ = layout.check_layout(tmp, spec, 'asefile::parse::parse_frame', spec['decoders']['asefile::parse::parse_frame'], rule='tmp')
+    pf = ctx.anchor('asefile::parse::parse_frame')
+    if pf is not None:
+        E = effects.get(fx)
+        ws = [w for w in E.writes(pf) if effects.root_of(w[0])[1][:1] == ['frame_times'] and w[3][0] == pf.name]
+        ctx.floor('frame_times writes in parse_frame', len(ws), 1)
+        for loc, val, kind, site in ws:
+            idx = None
+            for x in walk(loc):
+                if x[0] == 'call' and x[1] in effects.LOC_THROUGH:
+                    idx = strip_casts(x[2][1])
+            ok_i = idx is not None and is_param(idx) and pf.locals[idx[1]]['ty'] == 'u16'
+            v, bad = layout.unwrap_value(expand(val, fx, 3, layout.noinl(fx)))
+            ok_v = layout.is_read_term(v) and bindings.get(v[3], ('', ''))[1] == 'duration' and not bad
+            always = q.must_pass(pf, 0, site[1])
+            ctx.inst(rule, 'frame_times#store', ok_i and ok_v and always, 'frame_times[%s] = %s, %s; must be frame_times[frame_id] = frame header duration on every successful path'
+                     % (show(idx), show(val), 'unconditionally' if always else 'ONLY CONDITIONALLY'), site[2], key=pf.name + '|%s|store' % rule)
+
+
 def run(ctx):
     fx = ctx.fx
     spec = SP.load_spec()
@@ -152,32 +212,7 @@ def run(ctx):
     ctx.floor('getter bindings', ngt, 23)
 
     # ---------------- O1: nothing reorders the ordered collections
-    nre = 0
-    scanned = 0
-    for b in fx.bodies:
-        if b.kind == 'promoted':
-            continue
-        for c in q.calls(b):
-            scanned += 1
-            nm = c.callee.split('::')[-1]
-            if nm in REORDER and (c.callee.startswith('std::vec::Vec::') or c.callee.startswith('core::slice::')
-                                  or c.callee.startswith('std::iter::Iterator::') or c.callee.startswith('std::slice::')):
-                at = q.arg_terms(c)
-                names = set()
-                for x in walk(at[0]):
-                    if isinstance(x, tuple) and x[0] == 'field':
-                        names.add(x[2])
-                hit = names & set(ORDERED_FIELDS)
-                aty = c.args[0]['p']['ty'] if c.args and c.args[0]['k'] in ('copy', 'move') else ''
-                for et in ('layer::LayerData', 'tags::Tag', 'slice::Slice', 'slice::SliceKey'):
-                    if ('<%s>' % et) in aty or ('[%s]' % et) in aty or ('<%s,' % et) in aty:
-                        hit = hit | {et}
-                if hit:
-                    nre += 1
-                    ctx.inst('O1', b.name, False, '%s is applied to %s: file order of %s is no longer preserved'
-                             % (c.callee, show(at[0])[:100], sorted(hit)), c.span, key=ctx.key(b.name, 'O1', c.callee, ''))
-    ctx.inst('O1', 'crate', nre == 0, 'no sort/reverse/insert/remove/rev/... on layers, tags, slices or slice keys in %d call sites '
-             'scanned' % scanned, None, key='crate|O1|none')
+    no_reordering(ctx, 'O1')
     # how the collections are filled: push / collect in decode order
     tg = ctx.anchor('asefile::tags::parse_chunk')
     if tg is not None:
@@ -214,22 +249,8 @@ def run(ctx):
                  key=sl.name + '|O1|keys')
 
     # ---------------- O2: frame table
-    pf = ctx.anchor('asefile::parse::parse_frame')
-    if pf is not None:
-        E = effects.get(fx)
-        ws = [w for w in E.writes(pf) if effects.root_of(w[0])[1][:1] == ['frame_times'] and w[3][0] == pf.name]
-        ctx.floor('frame_times writes in parse_frame', len(ws), 1)
-        for loc, val, kind, site in ws:
-            idx = None
-            for x in walk(loc):
-                if x[0] == 'call' and x[1] in effects.LOC_THROUGH:
-                    idx = strip_casts(x[2][1])
-            ok_i = idx is not None and is_param(idx) and pf.locals[idx[1]]['ty'] == 'u16'
-            v, bad = layout.unwrap_value(expand(val, fx, 3, layout.noinl(fx)))
-            ok_v = layout.is_read_term(v) and bindings.get(v[3], ('', ''))[1] == 'duration' and not bad
-            always = q.must_pass(pf, 0, site[1])
-            ctx.inst('O2', 'frame_times#store', ok_i and ok_v and always, 'frame_times[%s] = %s, %s; must be frame_times[frame_id] = frame header duration on every successful path'
-                     % (show(idx), show(val), 'unconditionally' if always else 'ONLY CONDITIONALLY'), site[2], key=pf.name + '|O2|store')
+    frame_duration_store(ctx, 'O2', bindings)
+    pf = fx.body('asefile::parse::parse_frame')
     ra = ctx.anchor('asefile::parse::read_aseprite')
     if ra is not None:
         cs = q.calls(ra, 'asefile::parse::parse_frame')
@@ -375,6 +396,12 @@ def run(ctx):
                          % (op, show(r_)[:60]), tm.get('span'), key=cr.name + '|O3|framing|avail')
         ctx.floor('framing rejections on the chunk size', nrej, 2)
 
+    # palette entries are among the stored attributes: ids of new-format entries, cumulative packet offsets and component scaling of
+    # the two legacy chunk kinds (C11's decoder rules, run here as L2; seed C01-j advanced the legacy offset by the packet length)
+    import C11 as _c11r
+    import rule as _R
+    _c11r.decoders(_R.View(ctx, {'L1': 'L1', 'P1': 'L2', 'P2': 'L2', 'P3': 'L2'}))
+
     # ---------------- O4 lookups / iteration
     lb = ctx.anchor('asefile::file::AsepriteFile::layer_by_name')
     if lb is not None:
@@ -424,6 +451,20 @@ def run(ctx):
             ok = is_param_path(q.arg_terms(c)[1], 1, ['next'])
             ctx.inst('O4', 'LayersIter::next#item', ok, 'yields layer(%s); must be layer(self.next)' % show(q.arg_terms(c)[1]), c.span,
                      key=li.name + '|O4|item')
+        # the adapter methods of Iterator (skip, step_by, nth, zip ..) are std's, built on next(): the impl overrides nothing that moves
+        # the cursor.  An own `nth`/`advance_by`/`fold`.. is a second cursor rule that has to agree with next() (seed C01-i: an `nth`
+        # that jumps to the absolute index); a `size_hint` may be added only if it never writes the cursor
+        prefix = li.name[:-len('next')]
+        for ob in fx.bodies:
+            if ob.kind == 'promoted' or not ob.name.startswith(prefix) or ob.name == li.name or '{closure' in ob.name:
+                continue
+            meth = ob.name[len(prefix):]
+            wr = [w for w in E.writes(ob) if effects.root_of(w[0])[0] == 1]
+            calls_next = bool(q.calls(ob, li.name))
+            ok = meth == 'size_hint' and not wr and not calls_next
+            ctx.inst('O4', 'LayersIter::' + meth, ok, 'impl Iterator for LayersIter overrides %s%s; only next() (and a read-only size_hint) may be defined, '
+                     'everything else must be the std adapter built on next()' % (meth, ' and moves the cursor there' if wr or calls_next else ''), ob.span,
+                     key=ob.name + '|O4|override')
     nl = ctx.anchor('asefile::file::AsepriteFile::num_layers')
     if nl is not None:
         t = res(nl).ret()
